@@ -100,6 +100,9 @@ def gen_program(rnd):
             corekind = "Fun_Call"
         pre, suf, enclosing = wrap_stmt(rnd, core, i)
         stmt_prefix = indent + pre
+        if rnd.random() < 0.35:
+            # the statement shares its line with a preceding `;`-terminated one (Dot_Fun_Array backs up over the `;` with --m_position)
+            stmt_prefix = indent + rnd.choice(["t += 1; ", "t;", "var z%d = t ;\t" % rnd.randint(0, 999), "t = t + 1 ; /* c */ "]) + pre
         body_before = P.nl().join(lines + [""]) if lines else ""
         after = P.filler("  ", rnd.randint(0, 3))
         header = "def %s(a)%s{%s" % (names[i], rnd.choice([" ", "\n", " // hdr\n", ""]), P.nl())
@@ -132,6 +135,8 @@ def gen_program(rnd):
     if pre.startswith("return"):
         pre = ""
     indent = rnd.choice(["", "  ", "\t"])
+    if rnd.random() < 0.35:
+        indent += rnd.choice(["t += 1; ", "t;", "t = t + 1 ; /* c */ "])
     top = lead + indent + pre
     off = len(top)
     top += core + suf + P.nl() + P.nl().join(P.filler("", rnd.randint(0, 2)) + [""])
